@@ -15,11 +15,53 @@ pub fn swarm() -> Swarm {
     Swarm {
         io: true,
         stalls: true,
-        stall_max_ns: 1_000_000,
+        stall_max_ns: 3_000_000,
+        stall_focus: &["io/sys/unix/net/", "io/sys/unix/epoll.rs", "io/sys/unix/mod.rs", "io/sys/unix/cancel.rs"],
         est_len: 6000,
         max_steps: 1_200_000,
         ..Default::default()
     }
+}
+
+/// timeout (ns, 0 = none) and start time of the timed operation currently in flight
+static CUR_TIMEOUT: AtomicU64 = AtomicU64::new(0);
+static CUR_T0: AtomicU64 = AtomicU64::new(0);
+
+fn timed_op_begins(timeout: Option<u64>) {
+    CUR_T0.store(engine::now(), Ordering::Relaxed);
+    CUR_TIMEOUT.store(timeout.unwrap_or(0), Ordering::Relaxed);
+}
+
+fn timed_op_ends() {
+    CUR_TIMEOUT.store(0, Ordering::Relaxed);
+}
+
+/// Known finding F21 (see known_findings.json): an io operation arms its timer before it
+/// publishes the coroutine; if the arming thread is held up for the whole timeout in between,
+/// the timer fires, finds no coroutine and the time-out is lost. Recognised exactly: the run
+/// hangs in a timed operation AND a stall at least as long as its (ms-rounded) timeout was
+/// injected, after the operation began, at a schedule point between the computation of the
+/// expiry time in add_timer and the store of the coroutine in `subscribe`.
+fn hung_note() -> String {
+    let d = CUR_TIMEOUT.load(Ordering::Relaxed);
+    if d == 0 {
+        return String::new();
+    }
+    let t0 = CUR_T0.load(Ordering::Relaxed);
+    for st in engine::stall_log() {
+        let in_window = st.file.ends_with("may_queue/src/mpsc_list_v1.rs")
+            || st.file.ends_with("src/timeout_list.rs")
+            || st.file.ends_with("src/verif.rs")
+            || st.file.ends_with("io/sys/unix/epoll.rs")
+            || (st.file.contains("io/sys/unix/net/") && st.op == "opt.store");
+        if in_window && st.vt >= t0 && st.dur + 100_000 >= ceil_ms(d) {
+            return format!(
+                "lost io timeout: the thread arming the io timer was stalled {} ns (timeout {} ns) at {}:{} before the coroutine was published",
+                st.dur, d, st.file, st.line
+            );
+        }
+    }
+    String::new()
 }
 
 const DURS: [u64; 7] = [100_000, 1_000_000, 1_500_000, 2_000_001, 10_000_000, 50_000_000, 1_000_000_000];
@@ -143,6 +185,7 @@ pub fn run_timeout(seed: u64, mut ov: impl FnMut(&mut engine::Cfg)) -> ! {
     engine::init(cfg);
     engine::set_extra("params", engine::json_str(&format!("{:?}", p)));
     rt::boot(&p.rt);
+    *rt::HUNG_NOTE.lock().unwrap() = Some(hung_note);
     engine::set_diag(|| format!("in flight: {}", OPS.pending()));
     engine::set_vt_limit(engine::now() + 20_000_000_000);
     let quiet = engine::quiet();
@@ -193,7 +236,9 @@ pub fn run_timeout(seed: u64, mut ov: impl FnMut(&mut engine::Cfg)) -> ! {
                 let t0 = engine::now();
                 OP_START[k].store(t0 + 1, Ordering::Relaxed);
                 engine::notify(&OP_START[k] as *const _ as usize);
+                timed_op_begins(op.timeout);
                 let r = may_end.recv(&mut buf);
+                timed_op_ends();
                 let t1 = engine::now();
                 o.done();
                 check_result(k, op, t0, t1, r.as_ref().map(|n| *n).map_err(|e| e.kind()), quiet, "recv");
@@ -233,7 +278,9 @@ pub fn run_timeout(seed: u64, mut ov: impl FnMut(&mut engine::Cfg)) -> ! {
                 if let (Some(d), Some(fa)) = (bc, full_addr) {
                     let o = OPS.begin(format!("reader connect_timeout {} ns to a listener with a full queue", d));
                     let t0 = engine::now();
+                    timed_op_begins(Some(d));
                     let r = may::net::TcpStream::connect_timeout(&fa, Duration::from_nanos(d));
+                    timed_op_ends();
                     let t1 = engine::now();
                     o.done();
                     match r {
@@ -250,10 +297,17 @@ pub fn run_timeout(seed: u64, mut ov: impl FnMut(&mut engine::Cfg)) -> ! {
                         _ => engine::probe("connect_not_blocked"),
                     }
                 }
+                // a stalled thread may overrun a short timeout of its own (the runtime looks at its
+                // timers before it polls again): short ones only in undisturbed runs
+                let ct = if quiet { ct } else { ct.max(50_000_000) };
                 let o = OPS.begin("reader connect_timeout to a listening socket".to_string());
+                let t0 = engine::now();
+                timed_op_begins(Some(ct));
                 let r = may::net::TcpStream::connect_timeout(&addr, Duration::from_nanos(ct));
+                timed_op_ends();
+                let t1 = engine::now();
                 o.done();
-                let s = r.unwrap_or_else(|e| violation(&format!("connect_timeout({} ns) to a listening loopback socket failed: {}", ct, e)));
+                let s = r.unwrap_or_else(|e| violation(&format!("connect_timeout({} ns) to a listening loopback socket failed after {} ns: {}", ct, t1 - t0, e)));
                 rt::set_flag(&CONNECTED);
                 Box::new(s)
             });
@@ -339,7 +393,9 @@ pub fn run_timeout(seed: u64, mut ov: impl FnMut(&mut engine::Cfg)) -> ! {
                 let t0 = engine::now();
                 OP_START[k].store(t0 + 1, Ordering::Relaxed);
                 engine::notify(&OP_START[k] as *const _ as usize);
+                timed_op_begins(op.timeout);
                 let r = if op.peek { may_end.pk(&mut buf) } else { may_end.rd(&mut buf) };
+                timed_op_ends();
                 let t1 = engine::now();
                 o.done();
                 check_result(k, op, t0, t1, r.as_ref().map(|n| *n).map_err(|e| e.kind()), quiet, what);
@@ -483,6 +539,7 @@ pub fn run_cancel(seed: u64, mut ov: impl FnMut(&mut engine::Cfg)) -> ! {
     engine::init(cfg);
     engine::set_extra("params", engine::json_str(&format!("{:?}", p)));
     rt::boot(&p.rt);
+    *rt::HUNG_NOTE.lock().unwrap() = Some(hung_note);
     engine::set_diag(|| format!("in flight: {}", OPS.pending()));
     engine::set_vt_limit(engine::now() + 8_000_000_000);
 
